@@ -718,7 +718,7 @@ def tile(unit, total):
     return (unit * (total // len(unit) + 1))[:total]
 
 
-def repeated_structures(rng, quick=True):
+def repeated_structures(rng, quick=True, short=False):
     """hostile streams that announce nothing through a length field but keep *repeating* a structure the
     format recognises, at the stride the format expects it (ISO volume descriptors of every identifier from
     sector 16 on, VHDX region tables / metadata tables / table entries, VMDK headers, markers and descriptor
@@ -727,7 +727,9 @@ def repeated_structures(rng, quick=True):
 
     def add(fmt, tag, data, bounds=()):
         out.append(Img(fmt, data, list(bounds), 'repeat/%s/%s' % (fmt, tag)))
-    long_ = {f: (9 << 18 if f == 'vmdk' else 768 * K) for f in FORMATS}
+    # `short`: a few dozen repetitions only - for the model comparison, where the driver's content parser is
+    # quadratic in the number of run-length parts; the search uses streams longer than the bound
+    long_ = {f: (64 * K if short else 9 << 18 if f == 'vmdk' else 768 * K) for f in FORMATS}
     # ISO: every volume-structure identifier x descriptor type, and random sequences of them
     for ident in VOLUME_IDS:
         for dt in ([1, rng.choice([0, 2, 255])] if quick else [0, 1, 2, 255]):
@@ -747,7 +749,7 @@ def repeated_structures(rng, quick=True):
     for i in range(2047):            # every region entry is a metadata region, each somewhere else
         buf[H + 16 + 32 * i:H + 48 + 32 * i] = images.GUID_META + struct.pack('<QII', 256 * K + 4096 * (i % 150), 0x100000, 1)
     buf[H:H + 16] = struct.pack('<IIII', 0x69676572, 0, 2047, 0)
-    for k in range(0, long_['vhdx'], K64):
+    for k in range(0, long_['vhdx'], K64) if not short else [0]:
         buf[256 * K + k:256 * K + k + 12] = struct.pack('<8sHH', b'metadata', 0, 2047)
         for i in range(2047):        # every metadata entry is the virtual disk size, with a maximal length
             o = 256 * K + k + 32 + 32 * i
